@@ -563,68 +563,70 @@ theorem mk_pw (L : Laws I WT) (nm att : String) (ann : Ann) (args : Term) :
       · exact mk_dflt I ρ _ _ _ hs
     · exact mk_dflt I ρ _ _ _ hs
 
-theorem reshapeId_sound (L : Laws I WT) (ann : Ann) (a sT : Term) (x z : Tensor α)
-    (hx : eval I ρ a = [x]) (hz : eval I ρ sT = [z]) (hsa : AnnotSound I ρ a)
-    (hss : AnnotSound I ρ sT) (hann : annOK I ann (I.reshape x z)) :
-    eval I ρ (reshapeId ann a sT) = [I.reshape x z] ∧ AnnotSound I ρ (reshapeId ann a sT) := by
-  have dflt : eval I ρ (.app .reshape ann (.cons a (.cons sT .nil))) = [I.reshape x z] ∧
-      AnnotSound I ρ (.app .reshape ann (.cons a (.cons sT .nil))) := by
-    refine ⟨by simp [eval, hx, hz, applyHead], ?_⟩
-    simp only [AnnotSound]
-    exact ⟨⟨hsa, hss, trivial⟩, by simpa [eval, hx, hz, applyHead] using hann⟩
-  unfold reshapeId
-  split
+/-- core of the Reshape rules: a tensor `r` with the (true) annotation `ann` that has as many
+    elements as `x` and is `x` as soon as rank and extents agree, IS `x` when `reshapeIdOk`. -/
+theorem reshapeIdOk_eq (ann : Ann) (a : Term) (x r : Tensor α)
+    (hx : eval I ρ a = [x]) (hsa : AnnotSound I ρ a) (hann : annOK I ann r)
+    (hnum : numel r = numel x)
+    (hsame : r.rank = x.rank → (∀ k, k < x.rank → r.dim k = x.dim k) → r = x)
+    (hok : reshapeIdOk ann a = true) : r = x := by
+  unfold reshapeIdOk at hok
+  split at hok
   · rename_i so sa hso hsa'
-    split
-    · rename_i hc
-      simp only [Bool.and_eq_true, decide_eq_true_eq, List.all_eq_true] at hc
+    simp only [Bool.or_eq_true] at hok
+    rcases hok with hc | hoo
+    · simp only [Bool.and_eq_true, decide_eq_true_eq, List.all_eq_true] at hc
       obtain ⟨heq, hknown⟩ := hc
       subst heq
       obtain ⟨r1, d1⟩ := hann.2 so hso
       obtain ⟨r2, d2⟩ := shapeOf_sound I ρ a hsa so hsa' x hx
-      have hsame : I.reshape x z = x := by
-        apply L.reshape_same
-        · rw [r1, r2]
-        · intro k hk
-          have hk' : k < so.length := by omega
-          have a1 := d1 k hk'
-          have a2 := d2 k hk'
-          have hnu := hknown so[k] (List.getElem_mem hk')
-          cases hd : so[k] with
-          | known m => simp only [hd, dimOK] at a1 a2; omega
-          | sym sy => simp only [hd, dimOK] at a1 a2; omega
-          | unk => simp [hd, Dim.isUnk] at hnu
-      exact ⟨by rw [hsame]; exact hx, hsa⟩
-    · split
-      · rename_i hoo
-        obtain ⟨hlen, k, hk, hothers⟩ := oneOff_spec so sa hoo
-        obtain ⟨r1, d1⟩ := hann.2 so hso
-        obtain ⟨r2, d2⟩ := shapeOf_sound I ρ a hsa sa hsa' x hx
-        have hrank : (I.reshape x z).rank = x.rank := by rw [r1, r2, hlen]
-        have hoth : ∀ j, j < x.rank → j ≠ k →
-            (I.reshape x z).dim j = x.dim j ∧ 0 < (I.reshape x z).dim j := by
-          intro j hj hne
-          have h1 : j < so.length := by omega
-          have h2 : j < sa.length := by omega
-          obtain ⟨m, hm, e1, e2⟩ := hothers j h1 h2 hne
-          have a1 := d1 j h1
-          have a2 := d2 j h2
-          simp only [e1, dimOK] at a1
-          simp only [e2, dimOK] at a2
-          omega
-        have hnum := L.reshape_numel x z
-        simp only [numel, hrank] at hnum
-        have hkd : (I.reshape x z).dim k = x.dim k :=
-          prodTo_cancel _ _ k x.rank (by omega) hoth hnum
-        have hsame : I.reshape x z = x := by
-          apply L.reshape_same _ _ hrank
-          intro j hj
-          by_cases hjk : j = k
-          · rw [hjk]; exact hkd
-          · exact (hoth j hj hjk).1
-        exact ⟨by rw [hsame]; exact hx, hsa⟩
-      · exact dflt
-  · exact dflt
+      apply hsame
+      · rw [r1, r2]
+      · intro k hk
+        have hk' : k < so.length := by omega
+        have a1 := d1 k hk'
+        have a2 := d2 k hk'
+        have hnu := hknown so[k] (List.getElem_mem hk')
+        cases hd : so[k] with
+        | known m => simp only [hd, dimOK] at a1 a2; omega
+        | sym sy => simp only [hd, dimOK] at a1 a2; omega
+        | unk => simp [hd, Dim.isUnk] at hnu
+    · obtain ⟨hlen, k, hk, hothers⟩ := oneOff_spec so sa hoo
+      obtain ⟨r1, d1⟩ := hann.2 so hso
+      obtain ⟨r2, d2⟩ := shapeOf_sound I ρ a hsa sa hsa' x hx
+      have hrank : r.rank = x.rank := by rw [r1, r2, hlen]
+      have hoth : ∀ j, j < x.rank → j ≠ k → r.dim j = x.dim j ∧ 0 < r.dim j := by
+        intro j hj hne
+        have h1 : j < so.length := by omega
+        have h2 : j < sa.length := by omega
+        obtain ⟨m, hm, e1, e2⟩ := hothers j h1 h2 hne
+        have a1 := d1 j h1
+        have a2 := d2 j h2
+        simp only [e1, dimOK] at a1
+        simp only [e2, dimOK] at a2
+        omega
+      simp only [numel, hrank] at hnum
+      have hkd : r.dim k = x.dim k := prodTo_cancel _ _ k x.rank (by omega) hoth hnum
+      apply hsame hrank
+      intro j hj
+      by_cases hjk : j = k
+      · rw [hjk]; exact hkd
+      · exact (hoth j hj hjk).1
+  · exact absurd hok (by simp)
+
+theorem reshapeId_sound (L : Laws I WT) (ann : Ann) (a sT : Term) (x z : Tensor α)
+    (hx : eval I ρ a = [x]) (hz : eval I ρ sT = [z]) (hsa : AnnotSound I ρ a)
+    (hss : AnnotSound I ρ sT) (hann : annOK I ann (I.reshape x z)) :
+    eval I ρ (reshapeId ann a sT) = [I.reshape x z] ∧ AnnotSound I ρ (reshapeId ann a sT) := by
+  unfold reshapeId
+  split
+  · rename_i hok
+    have hsame : I.reshape x z = x :=
+      reshapeIdOk_eq I ρ ann a x _ hx hsa hann (L.reshape_numel x z) (L.reshape_same x z) hok
+    exact ⟨by rw [hsame]; exact hx, hsa⟩
+  · refine ⟨by simp [eval, hx, hz, applyHead], ?_⟩
+    simp only [AnnotSound]
+    exact ⟨⟨hsa, hss, trivial⟩, by simpa [eval, hx, hz, applyHead] using hann⟩
 
 theorem mk_reshape (L : Laws I WT) (ann : Ann) (args : Term) :
     MkStmt I ρ .reshape ann args (mkReshape ann args) := by
@@ -649,7 +651,7 @@ theorem mk_reshape (L : Laws I WT) (ann : Ann) (args : Term) :
         split
         · rename_i hc2
           simp only [Bool.and_eq_true] at hc2
-          obtain ⟨hpb, hps1⟩ := hc2
+          obtain ⟨⟨hpb, hps1⟩, hok⟩ := hc2
           obtain ⟨y, hy⟩ := eval_proper I ρ hpb
           obtain ⟨w, hw⟩ := eval_proper I ρ hps1
           have hxe : x = I.reshape y w := by
@@ -657,11 +659,12 @@ theorem mk_reshape (L : Laws I WT) (ann : Ann) (args : Term) :
               simp [eval, hy, hw, applyHead]
             rw [this] at hx; simpa using hx.symm
           have hsb : AnnotSound I ρ b := hsa.1.1
-          have hann' : annOK I ann (I.reshape y z) := by
-            rw [← L.reshape_reshape y w z, ← hxe]; exact hann
-          obtain ⟨e, s'⟩ := reshapeId_sound I ρ WT L ann b sT y z hy hz hsb hss hann'
-          refine ⟨?_, s'⟩
-          rw [e, tgt, hxe, L.reshape_reshape]
+          have hann' : annOK I ann (I.reshape (I.reshape y w) z) := by rw [← hxe]; exact hann
+          have hnum : numel (I.reshape (I.reshape y w) z) = numel y := by
+            rw [L.reshape_numel, L.reshape_numel]
+          have hsame : I.reshape (I.reshape y w) z = y :=
+            reshapeIdOk_eq I ρ ann b y _ hy hsb hann' hnum (L.reshape_same2 y w z) hok
+          exact ⟨by rw [tgt, hxe, hsame]; exact hy, hsb⟩
         · obtain ⟨e, s'⟩ := reshapeId_sound I ρ WT L ann _ sT x z hx hz hsa hss hann
           exact ⟨by rw [e, tgt], s'⟩
       · obtain ⟨e, s'⟩ := reshapeId_sound I ρ WT L ann a sT x z hx hz hsa hss hann
